@@ -5,9 +5,10 @@ Helper lemmas for C09 (subnet arithmetic).  Route: the 33-row mask table is chec
 `s = 32 - k`) is proved by `testBit` extensionality; everything else is `Nat` arithmetic with the
 block size `P = 2^s` kept abstract (`0 < P`, `P * Q = 2^32`).
 -/
-deriving instance DecidableEq for Except
-
 namespace Elvis.Subnet
+
+-- needed for `decide` on results; declared inside the namespace so its name cannot clash
+deriving instance DecidableEq for Except
 
 /-! ### well-formedness: what every public constructor establishes -/
 
